@@ -63,6 +63,16 @@ package agent
 //@   guard-call relayid:   "AgentInstance#3" arg(1) == AgentHdr.AgentID
 //@   guard-call relaykey:  "DecryptBuffer" sameslice(arg(1), PivotAgent.Encryption.AESKey) && sameslice(arg(2), PivotAgent.Encryption.AESIv)
 //@   guard-call relaygate: "TaskDispatch" arg(0) == PivotAgent && arg(0) != nil
+// C07: a file chunk / close callback names the transfer by the big-endian id in its
+// first four bytes; the chunk written is everything after those four bytes.
+// (COMMAND_FS download sub-commands carry the id as their second integer.)
+//@   guard-call dlopen1:  "DownloadAdd#1" arg(0) == a && arg(1) == FileID && arg(2) == FileName && arg(3) == FileSize
+//@   guard-call dlopen2:  "DownloadAdd#2" arg(0) == a && arg(1) == be32(Data) && arg(3) == be32(Data[4:]) && len(Data) > 8
+//@   guard-call dlchunk1: "DownloadWrite#1" arg(0) == a && arg(1) == FileID && sameslice(arg(2), FileChunk)
+//@   guard-call dlclose1: "DownloadClose#1" arg(0) == a && arg(1) == FileID
+//@   guard-call dlclose2: "DownloadClose#2" arg(0) == a && arg(1) == FileID
+//@   guard-call dlchunk2: "DownloadWrite#2" arg(0) == a && arg(1) == be32(Data) && sameslice(arg(2), Data[4:])
+//@   guard-call dlclose3: "DownloadClose#3" arg(0) == a && arg(1) == be32(Data)
 
 // ---------------------------------------------------------------------------
 // Representation invariant of a registered session: the AES key and IV have the
